@@ -18,6 +18,7 @@ import Pandora.Proofs.C01Float
 
 set_option linter.unusedVariables false
 set_option linter.unusedTactic false
+set_option linter.unreachableTactic false
 
 namespace Pandora.Proofs.C01LineFloat
 open Pandora Pandora.Gen.Schedule Pandora.Bridge.Schedule Pandora.Proofs.C01Float Pandora.Proofs.LineMath
@@ -195,7 +196,7 @@ theorem NewLine_fl_sem (hu : Rounding u fl) {f t : ℝ} {D : ℤ} (hf : 0 ≤ f)
   have hne : f ≠ t := hft.ne
   unfold NewLine_fl lineDoAt_fl
   schedule_aux_unfold
-  simp only [hne, hne.symm, if_false, if_neg, not_false_eq_true]
+  try simp only [hne, hne.symm, if_false, if_neg, not_false_eq_true]      -- the `from == to` shortcut, if the source has one
   refine ⟨_, _, rfl, ?_⟩
   intro i hi
   have hi' : (0:ℝ) < ((i : ℤ) : ℝ) := by exact_mod_cast hi
@@ -233,31 +234,20 @@ theorem cum_scale_down {a b x c : ℝ} (ha : 0 ≤ a) (hb : 0 ≤ b) (hx : 0 ≤
 theorem pow126_hi : (1 + (1 / 2 ^ 53 : ℝ)) ^ 126 ≤ 1 + 1 / 2 ^ 46 := by norm_num
 theorem pow126_lo : 1 - 1 / 2 ^ 46 ≤ (1 - (1 / 2 ^ 53 : ℝ)) ^ 126 := by norm_num
 
-/-- **increasing line, float64**: with u = 2⁻⁵³, an instant `x` within 63 roundings of the exact instant of operation
-`i > 0`: its truncation `⌊x⌋` passes the Spec's acceptance test with the Spec's tolerance
-δ = 2⁻⁴⁶·(i + 1 + max(from,to)·D) (in fact with 2⁻⁴⁶·i) -/
-theorem line_token_ok {f t : ℝ} {D : ℤ} (hf : 0 ≤ f) (hft : f < t) (hD : 1000000 ≤ D)
+/-- the count-space argument of `line_token_ok`, for a NON-DECREASING line (`from ≤ to`, so also a flat one that is
+computed by the line formula): all it needs of the exact instant is that the integral reaches exactly `i` there -/
+theorem line_token_ok_core {f t : ℝ} {D : ℤ} (hf : 0 ≤ f) (hft : f ≤ t) (hD : 1000000 ≤ D)
     {i : ℤ} (hipos : 0 < i) {x : ℝ} (hrel : Rel (1 / 2 ^ 53) 63 (xExact f t D i) x)
-    (hlt : (i : ℝ) < cum (slope f t D) f (secs D)) :
+    (hcumX : cum (slope f t D) f (xExact f t D i / 1000000000) = (i : ℝ)) :
     cum (slope f t D) f (((Go.f2i x : ℤ) : ℝ) / 1000000000) ≤ (i : ℝ) + ((i : ℝ) + 1 + max f t * secs D) / 2 ^ 46 ∧
     (i : ℝ) - ((i : ℝ) + 1 + max f t * secs D) / 2 ^ 46 ≤ cum (slope f t D) f ((((Go.f2i x : ℤ) : ℝ) + 1) / 1000000000) := by
   have hsecs : 0 < secs D := secs_pos hD
-  have hA : 0 < slope f t D := by unfold slope; exact div_pos (by linarith) hsecs
+  have hA : 0 ≤ slope f t D := by unfold slope; exact div_nonneg (by linarith) hsecs.le
   have hipos' : (0:ℝ) < (i : ℝ) := by exact_mod_cast hipos
   have hi' : (0:ℝ) ≤ (i : ℝ) := hipos'.le
   have hmax : 0 ≤ max f t * secs D := mul_nonneg (le_trans hf (le_max_left f t)) hsecs.le
   have hδ : (i : ℝ) / 2 ^ 46 ≤ ((i : ℝ) + 1 + max f t * secs D) / 2 ^ 46 :=
     div_le_div_of_nonneg_right (by linarith) (by positivity)
-  have hcfg : Cfg (slope f t D) f (secs D) :=
-    ⟨hsecs, hA.ne', hf, by have := mul_pos hA hsecs; linarith⟩
-  -- the exact instant, in seconds, is x_k: the integral reaches exactly i there
-  have hXs : xExact f t D i / 1000000000 = xk2 (slope f t D) f (i : ℝ) := by
-    unfold xExact xk2
-    rw [show f * f = f ^ 2 by ring]
-    ring
-  have hcumX : cum (slope f t D) f (xExact f t D i / 1000000000) = (i : ℝ) := by
-    rw [hXs, xk2_eq_xk hcfg hi' hlt.le]
-    exact cum_xk hcfg hi' hlt.le
   have hX0 : 0 ≤ xExact f t D i / 1000000000 := div_nonneg hrel.1 (by norm_num)
   have hu0 : (0:ℝ) ≤ 1 - 1 / 2 ^ 53 := by norm_num
   have hx0 : 0 ≤ x := le_trans (mul_nonneg (pow_nonneg hu0 _) hrel.1) hrel.2.1
@@ -271,13 +261,13 @@ theorem line_token_ok {f t : ℝ} {D : ℤ} (hf : 0 ≤ f) (hft : f < t) (hD : 1
   constructor
   · calc cum (slope f t D) f (((⌊x⌋ : ℤ) : ℝ) / 1000000000)
         ≤ cum (slope f t D) f (x / 1000000000) :=
-          cum_mono_nonneg hA.le hf (div_nonneg hfl0 (by norm_num)) (div_le_div_of_nonneg_right hfl1 (by norm_num))
+          cum_mono_nonneg hA hf (div_nonneg hfl0 (by norm_num)) (div_le_div_of_nonneg_right hfl1 (by norm_num))
       _ ≤ cum (slope f t D) f ((1 + 1 / 2 ^ 53) ^ 63 * (xExact f t D i / 1000000000)) := by
-          apply cum_mono_nonneg hA.le hf (div_nonneg hx0 (by norm_num))
+          apply cum_mono_nonneg hA hf (div_nonneg hx0 (by norm_num))
           rw [← mul_div_assoc]
           exact div_le_div_of_nonneg_right hrel.2.2 (by norm_num)
       _ ≤ ((1 + 1 / 2 ^ 53) ^ 63) ^ 2 * cum (slope f t D) f (xExact f t D i / 1000000000) :=
-          cum_scale_up hA.le hf hX0 hchi
+          cum_scale_up hA hf hX0 hchi
       _ = (1 + 1 / 2 ^ 53) ^ 126 * (i : ℝ) := by rw [hcumX, ← pow_mul]
       _ ≤ (1 + 1 / 2 ^ 46) * (i : ℝ) := mul_le_mul_of_nonneg_right pow126_hi hi'
       _ = (i : ℝ) + (i : ℝ) / 2 ^ 46 := by ring
@@ -288,21 +278,54 @@ theorem line_token_ok {f t : ℝ} {D : ℤ} (hf : 0 ≤ f) (hft : f < t) (hD : 1
       _ = ((1 - 1 / 2 ^ 53) ^ 63) ^ 2 * cum (slope f t D) f (xExact f t D i / 1000000000) := by
           rw [hcumX, ← pow_mul]
       _ ≤ cum (slope f t D) f ((1 - 1 / 2 ^ 53) ^ 63 * (xExact f t D i / 1000000000)) :=
-          cum_scale_down hA.le hf hX0 hclo0 hclo1
+          cum_scale_down hA hf hX0 hclo0 hclo1
       _ ≤ cum (slope f t D) f (x / 1000000000) := by
-          apply cum_mono_nonneg hA.le hf (mul_nonneg hclo0 hX0)
+          apply cum_mono_nonneg hA hf (mul_nonneg hclo0 hX0)
           rw [← mul_div_assoc]
           exact div_le_div_of_nonneg_right hrel.2.1 (by norm_num)
       _ ≤ cum (slope f t D) f ((((⌊x⌋ : ℤ) : ℝ) + 1) / 1000000000) :=
-          cum_mono_nonneg hA.le hf (div_nonneg hx0 (by norm_num)) (div_le_div_of_nonneg_right hfl2.le (by norm_num))
+          cum_mono_nonneg hA hf (div_nonneg hx0 (by norm_num)) (div_le_div_of_nonneg_right hfl2.le (by norm_num))
+
+/-- **increasing line, float64**: with u = 2⁻⁵³, an instant `x` within 63 roundings of the exact instant of operation
+`i > 0`: its truncation `⌊x⌋` passes the Spec's acceptance test with the Spec's tolerance
+δ = 2⁻⁴⁶·(i + 1 + max(from,to)·D) (in fact with 2⁻⁴⁶·i) -/
+theorem line_token_ok {f t : ℝ} {D : ℤ} (hf : 0 ≤ f) (hft : f < t) (hD : 1000000 ≤ D)
+    {i : ℤ} (hipos : 0 < i) {x : ℝ} (hrel : Rel (1 / 2 ^ 53) 63 (xExact f t D i) x)
+    (hlt : (i : ℝ) < cum (slope f t D) f (secs D)) :
+    cum (slope f t D) f (((Go.f2i x : ℤ) : ℝ) / 1000000000) ≤ (i : ℝ) + ((i : ℝ) + 1 + max f t * secs D) / 2 ^ 46 ∧
+    (i : ℝ) - ((i : ℝ) + 1 + max f t * secs D) / 2 ^ 46 ≤ cum (slope f t D) f ((((Go.f2i x : ℤ) : ℝ) + 1) / 1000000000) := by
+  have hsecs : 0 < secs D := secs_pos hD
+  have hA : 0 < slope f t D := by unfold slope; exact div_pos (by linarith) hsecs
+  have hi' : (0:ℝ) ≤ (i : ℝ) := by exact_mod_cast hipos.le
+  have hcfg : Cfg (slope f t D) f (secs D) :=
+    ⟨hsecs, hA.ne', hf, by have := mul_pos hA hsecs; linarith⟩
+  -- the exact instant, in seconds, is x_k: the integral reaches exactly i there
+  have hXs : xExact f t D i / 1000000000 = xk2 (slope f t D) f (i : ℝ) := by
+    unfold xExact xk2
+    rw [show f * f = f ^ 2 by ring]
+    ring
+  have hcumX : cum (slope f t D) f (xExact f t D i / 1000000000) = (i : ℝ) := by
+    rw [hXs, xk2_eq_xk hcfg hi' hlt.le]
+    exact cum_xk hcfg hi' hlt.le
+  exact line_token_ok_core hf hft.le hD hipos hrel hcumX
+
+/-- a FLAT line computed by the line formula (slope 0): the exact instant of operation `i` is `i / from` seconds -/
+theorem flat_cumX {f : ℝ} {D : ℤ} (hf : 0 < f) (i : ℤ) :
+    cum (slope f f D) f (xExact f f D i / 1000000000) = (i : ℝ) := by
+  have hs : slope f f D = 0 := by unfold slope; simp
+  unfold xExact cum
+  rw [hs]
+  simp only [mul_zero, zero_mul, zero_div, zero_add, Real.sqrt_mul_self hf.le]
+  field_simp
+  ring
 
 /-- operation 0 is at offset 0 -/
-theorem line_token0_ok {f t : ℝ} {D : ℤ} (hf : 0 ≤ f) (hft : f < t) (hD : 1000000 ≤ D) :
+theorem line_token0_ok {f t : ℝ} {D : ℤ} (hf : 0 ≤ f) (hft : f ≤ t) (hD : 1000000 ≤ D) :
     cum (slope f t D) f ((((0 : ℤ) : ℤ) : ℝ) / 1000000000) ≤ ((0 : ℤ) : ℝ) + (((0 : ℤ) : ℝ) + 1 + max f t * secs D) / 2 ^ 46 ∧
     ((0 : ℤ) : ℝ) - (((0 : ℤ) : ℝ) + 1 + max f t * secs D) / 2 ^ 46 ≤
       cum (slope f t D) f (((((0 : ℤ) : ℤ) : ℝ) + 1) / 1000000000) := by
   have hsecs : 0 < secs D := secs_pos hD
-  have hA : 0 < slope f t D := by unfold slope; exact div_pos (by linarith) hsecs
+  have hA : 0 ≤ slope f t D := by unfold slope; exact div_nonneg (by linarith) hsecs.le
   have hmax : 0 ≤ max f t * secs D := mul_nonneg (le_trans hf (le_max_left f t)) hsecs.le
   have hδ0 : 0 ≤ ((0:ℝ) + 1 + max f t * secs D) / 2 ^ 46 := by positivity
   simp only [Int.cast_zero, zero_div, zero_add]
